@@ -749,7 +749,7 @@ def compare(case, obs, rs):
         # rotate90: scalars are moved (exact); vectors are multiplied by cos/sin(pi/2) in binary64 (6e-17 instead of 0)
         fs = case["field"]
         cmp_res(f"Field.rotate90({obs['rot_axes'][0]},{obs['rot_axes'][1]})", obs["rot"], rs[len(OPS)], dis,
-                exact=(case["exact"] and fs["nvdim"] == 1), tol=obs.get("rot_tol", 0.0), geometry=True)
+                exact=False, tol=(0.0 if (case["exact"] and fs["nvdim"] == 1) else obs.get("rot_tol", 0.0)), geometry=True)
     elif case["kind"] == "meta":
         cmp_meta("Field(...) labels/mapping", obs["mk_res"], rs[0], dis)
         pos = 1
